@@ -57,6 +57,10 @@ func main() {
 		engine.WorkerMain(os.Args[2], os.Args[3], time.Unix(0, ns))
 	case "replay":
 		os.Exit(engine.ReplayMain(os.Args[2]))
+	case "racepass":
+		// only meaningful in the binary built with -race (engine.RacePassUnit builds and runs it)
+		reps, _ := strconv.Atoi(os.Args[4])
+		engine.RacePassMain(os.Args[2], os.Args[3], reps)
 	default:
 		fmt.Fprintln(os.Stderr, "unknown command")
 		os.Exit(2)
